@@ -54,12 +54,38 @@ MODS = ["J2O.Props.C11", "J2O.GenProps.C11"]
 GATE_PROGRAMS = ["reduce", "softmax_ln", "tree:silu_swish", "tree:reduce_in_loop", "gate:rms_norm",
                  "gate:dus", "gate:reduce_window", "gate:logsumexp", "gate:l2", "fn_mix", "int_ops"]
 
+# opset-gated components at top level AND inside control-flow bodies, and half-precision / normalization_mode
+# variants: "gated:<comp>@<wrap>:<dtype>[/<normalization_mode>]"
+_G_COMPS = ["rms_nnx", "ln_nnx", "rms_linen", "silu", "xsig", "gelu", "attention", "dus", "meanvar", "iota"]
+GATE_PROGRAMS += [f"gated:{c}@{w}:f32" for c in _G_COMPS for w in ("scan", "cond")]
+GATE_PROGRAMS += [f"gated:{c}@top:f32" for c in ("rms_nnx", "ln_nnx", "rms_linen", "attention", "iota", "arange")]
+GATE_PROGRAMS += [f"gated:{c}@top:bf16/{m}" for c in ("rms_linen", "ln_linen", "rms_nnx") for m in ("auto", "prefer_native")]
+GATE_PROGRAMS += ["gated:rms_linen@top:f16/prefer_native", "gated:rms_linen@top:f16/auto",
+                  "gated:iota@top:bf16", "gated:arange@top:bf16", "gated:arange_dyn@top:bf16", "gated:iota@fori:bf16",
+                  "gated:rms_linen@scan:bf16/prefer_native"]
+
+# float16 works only for these components at top level on the unchanged tree (see notes/C11.md)
+F16_CLEAN = ["rms_nnx", "ln_nnx", "rms_linen", "ln_linen", "silu", "xsig", "gelu", "cumsum"]
+NORM_COMPS = ["rms_nnx", "ln_nnx", "rms_linen", "ln_linen"]
+
 
 # ----------------------------------------------------------------------------- gate programs
 
 
+def _gate_cfg(name: str) -> dict:
+    """configuration overrides carried by a gate program name"""
+    if name.startswith("gated:") and "/" in name:
+        return {"norm_mode": name.split("/", 1)[1]}
+    return {}
+
+
 def _gate_desc(name: str) -> dict:
     import progs
+    if name.startswith("gated:"):
+        body = name[6:].split("/", 1)[0]
+        comp, rest = body.split("@")
+        wrap, dt = rest.split(":")
+        return progs.gated_desc(comp, wrap, dt)
     if name.startswith("tree:"):
         k = name[5:]
         return {"kind": "tree", "name": k, "tree": progs.FIXED_TREES[k], "shape": ["B", 3]}
@@ -162,7 +188,7 @@ def tab_gate_programs(max_opset: int) -> dict:
     for name in GATE_PROGRAMS:
         desc = _gate_desc(name)
         for v in range(progs.BASELINE_OPSET, max_opset + 1):
-            ex = progs.export(desc, dict(progs.default_cfg(), opset=v, symbolic=True))
+            ex = progs.export(desc, dict(progs.default_cfg(), opset=v, symbolic=True, **_gate_cfg(name)))
             if not ex.ok:
                 raised.append((name, v, ex.error[:80]))
                 continue
@@ -257,6 +283,8 @@ NONDETERMINISTIC_OPS = {"RandomNormal", "RandomUniform", "RandomNormalLike", "Ra
 def _component_of(desc: dict) -> tuple[str, str]:
     if desc["kind"] == "plugin":
         return desc.get("context", ""), desc.get("component", "")
+    if desc["kind"] == "gated":
+        return "gated", desc.get("name", "")
     return "program", desc.get("name", "")
 
 
@@ -275,7 +303,21 @@ def export_plan(chk: Check, rng: common.Rng, thorough: bool) -> list:
             plan.append((progs.plugin_desc(tp), progs.plugin_cfg(tp, opset=v)))
     for name in GATE_PROGRAMS:
         for v in opsets:
-            plan.append((_gate_desc(name), dict(progs.default_cfg(), opset=v)))
+            plan.append((_gate_desc(name), dict(progs.default_cfg(), opset=v, **_gate_cfg(name))))
+    # seeded combinations outside the tabulated catalogue: component × wrapper × element type × mode × opset
+    for _ in range(70 if not thorough else 1200):
+        comp = rng.choice(progs.GATED_COMPS)
+        dt = rng.choice(["f32", "f32", "bf16", "bf16", "f16"])
+        wrap = rng.choice(progs.GATED_WRAPS)
+        if dt == "f16":
+            if comp not in F16_CLEAN:
+                dt = "bf16"
+            else:
+                wrap = "top"
+        cfg = dict(progs.default_cfg(), opset=rng.choice(opsets))
+        if comp in NORM_COMPS:
+            cfg["norm_mode"] = rng.choice(["auto", "prefer_native", "force_decomposed"])
+        plan.append((progs.gated_desc(comp, wrap, dt), cfg))
     core = progs.core_programs(rng, n_random=6 if not thorough else 40)
     for d in core:
         for v in (rng.sample(opsets, 2) if not thorough else opsets):
@@ -330,10 +372,13 @@ def numeric_agreement(ex, ref, rng_np) -> Optional[dict]:
         u, w = np.asarray(u), np.asarray(w)
         if u.shape != w.shape or u.dtype != w.dtype:
             return {"output": k, "shape_dtype": [str(u.shape), str(u.dtype), str(w.shape), str(w.dtype)]}
-        if u.dtype.kind in "fc":
-            if not np.allclose(u, w, rtol=1e-3, atol=1e-4, equal_nan=True):
-                return {"output": k, "max_abs_diff": float(np.nanmax(np.abs(u - w)))}
-        elif not np.array_equal(u, w):
+        if u.dtype.kind in "fc" or "float" in u.dtype.name:
+            half = u.dtype.itemsize <= 2
+            uf, wf = u.astype(np.float64), w.astype(np.float64)
+            if not np.allclose(uf, wf, rtol=5e-2 if half else 1e-3, atol=5e-2 if half else 1e-4, equal_nan=True):
+                return {"output": k, "max_abs_diff": float(np.nanmax(np.abs(uf - wf)))}
+            continue
+        if not np.array_equal(u, w):
             return {"output": k, "differ": True}
     return None
 
